@@ -89,6 +89,15 @@ func setup(dir string, tmpl *cache.Cache, s scenario) {
 			kit.UnderTestFailed("PutBytes while building the start state (no fault injected yet) fails: %v", err)
 		}
 	}
+	// look: everything stored so far is looked up once, as a process that has used
+	// the cache before would have done (anything the package remembers about a
+	// file from an earlier lookup must not outlive a change of that file)
+	look := func() {
+		for i := range ids {
+			c.GetBytes(ids[i])
+			c.GetFile(ids[i])
+		}
+	}
 	nc := s.newContent()
 	out := cache.OutputID(sha256.Sum256(nc))
 	put(1, unrelated) // B -> unrelated content, always present
@@ -127,18 +136,25 @@ func setup(dir string, tmpl *cache.Cache, s scenario) {
 		// what Trim leaves when the data file is older than the index entry
 		put(s.Target, nc)
 		put(2, nc)
+		look()
 		os.Remove(fileOf(dir, out, "d"))
 	case "S4-damaged-same-size":
 		put(2, nc)
+		look()
 		os.WriteFile(fileOf(dir, out, "d"), bytes.Repeat([]byte("#"), len(nc)), 0o666)
 	case "S4-damaged-longer":
 		put(2, nc)
+		look()
 		os.WriteFile(fileOf(dir, out, "d"), append(append([]byte(nil), nc...), "tail"...), 0o666)
 	case "S4-damaged-shorter-wrong":
 		put(2, nc)
+		look()
 		os.WriteFile(fileOf(dir, out, "d"), bytes.Repeat([]byte("#"), len(nc)/2), 0o666)
 	default:
 		kit.Harness("unknown start %q", s.Start)
+	}
+	if !strings.HasPrefix(s.Start, "S4-") && !strings.HasPrefix(s.Start, "S5-") {
+		look()
 	}
 }
 
